@@ -465,6 +465,18 @@ def variant_index(enum, variant):
 UNIT_STRUCTS = {"RangeFull"}
 
 
+def box_ref(b):
+    """the reference inside a Box value (Box → Unique → NonNull, modelled as Agg("Box", [Agg("Unique", [Ref])]))"""
+    inner = b.fields[0]
+    if isinstance(inner, Agg) and inner.ty == "Unique":
+        inner = inner.fields[0]
+    return inner
+
+
+def mk_box(value):
+    return Agg("Box", None, [Agg("Unique", None, [new_ref(value, True)])])
+
+
 class Frame:
     def __init__(self, func):
         self.func = func
@@ -793,6 +805,32 @@ class Ctx:
                 if len(cands) == 1:
                     fname = cands[0]
                     f = prog.funcs[fname]
+        mo_dyn = re.match(r"<(?:Self|dyn ([A-Za-z_][A-Za-z0-9_]*)(?:<.*>)?) as ([A-Za-z_][A-Za-z0-9_:]*)>::([A-Za-z_][A-Za-z0-9_]*)$", fname) if f is None else None
+        if mo_dyn and args:
+            # dynamic dispatch on the receiver's concrete type
+            recv = args[0]
+            for _ in range(6):
+                if isinstance(recv, Ref):
+                    recv = recv.loc.get()
+                elif isinstance(recv, Agg) and recv.ty == "Box":
+                    recv = box_ref(recv).loc.get()
+                else:
+                    break
+            trait, method = mo_dyn.group(2).split("::")[-1], mo_dyn.group(3)
+            if isinstance(recv, Agg) and recv.ty:
+                alt = prog.resolve_call("<%s as %s>::%s" % (recv.ty, trait, method))
+                if alt is None:
+                    cands = [n for n in prog.funcs if n == "%s::%s" % (trait, method) or n.endswith("::%s::%s" % (trait, method))]
+                    alt = cands[0] if len(cands) == 1 else None
+                if alt is not None:
+                    fname = alt
+                    f = prog.funcs[alt]
+                    a0 = args[0]
+                    # hand the method a reference to the concrete value
+                    if isinstance(a0, Agg) and a0.ty == "Box":
+                        args = [box_ref(a0)] + list(args[1:])
+                    elif isinstance(a0, Ref) and isinstance(a0.loc.get(), Agg) and a0.loc.get().ty == "Box":
+                        args = [box_ref(a0.loc.get())] + list(args[1:])
         if f is None:
             alt = prog.resolve_call(fname)
             if alt is not None:
@@ -949,7 +987,7 @@ class Ctx:
             if isinstance(v, (Str, Slice, Opaque)) or v is None:
                 return loc  # fat pointers by value: *(&str) is the str itself
             if isinstance(v, Agg) and v.ty == "Box":
-                return v.fields[0].loc
+                return box_ref(v).loc
             return loc
         if kind == "downcast":
             return loc
